@@ -230,7 +230,11 @@ def pool(env, full):
     sym("ps", STRING)
     sym("pA", AII)
     sym("pf", FII)
+    # a user-declared sort that merely shares its name with a built-in one is a different sort
+    sym("pi", ("Sort", "Int", ()))
     if full:
+        sym("pb", ("Sort", "Bool", ()))
+        sym("pq", ("Sort", "Real", ()))
         out.append((INT, m.Int(0)))
         out.append((REAL, m.Real(0)))
         sym("pu3", ("BV", 3))
